@@ -3,7 +3,7 @@ from .. import common as C, generic as G
 
 TRUSTED = ['Coq 8.16.1 kernel + vm_compute', 'translator/fragments.py + translator/tables.py (the clip idioms and return sites regenerated from trust_region.py / util.py)', 'Coq Reals for the exact-arithmetic statements (rounding not modelled); OrdLaws/Flocq for the exact box statements', 'oracle harness harness/oracles/C12.py']
 PERRUN = ['C12.v']
-GEN = ('Gen_util', 'Gen_solver', 'Gen_tables')
+GEN = ('Gen_util', 'Gen_trust_region', 'Gen_solver', 'Gen_tables')
 LEVEL = 'proof'
 EXPLANATION = 'obligations: translation of the anchored functions + theorems listed in coverage.theorems; the remaining clauses are validated by the oracle sweep only'
 
@@ -49,7 +49,96 @@ def dwb_task(args):
     return out
 
 
+TRS_V = r"""
+From Coq Require Import ZArith List Bool String.
+Require Import DV.Base.Prelude DV.Base.F64 DV.Spec.Schema DV.Lib.Corr.
+From G Require Import Gen_util Gen_trust_region.
+Import ListNotations.
+Open Scope Z_scope.
+Definition trs_case (xopt g : list F) (H : list (list F)) (sl su : list F) (delta : F) : Z :=
+  match @py_trust_region_trsbox ArithF64 xopt g H sl su delta with
+  | Ok (d, gn, cm) => hashZ (fl_vec d ++ fl_vec gn ++ [to_bits cm]) | Err _ => -1 end.
+"""
+
+
+def trs_task(args):
+    """trsbox of the implementation (numerically pinned variant of the current source, see harness/seqvariant.py) on the oracle's
+    cases: (d, gnew, crvmin) as one hash, -1 for an exception"""
+    seed, count = args
+    import numpy as np
+    from ..oracles import C12 as O
+    from .. import modelio as IO, seqvariant
+    tr = seqvariant.load('trust_region')
+    assert tr.USE_FORTRAN is False, 'the model covers the pure-Python path only (trustregion package absent)'
+    rng = np.random.default_rng(seed)
+    out = []
+    for _ in range(count):
+        cs = O.gen_case(rng)
+        with np.errstate(all='ignore'):
+            try:
+                d, gn, cm = tr.trsbox(cs['xopt'].copy(), cs['g'].copy(), cs['H'].copy(), cs['sl'].copy(), cs['su'].copy(), cs['delta'], use_fortran=False)
+                r = IO.hashZ(IO.fl_vec(d) + IO.fl_vec(gn) + [C.bits(cm)])
+            except Exception:
+                r = -1
+        out.append(('trs_case %s %s %s %s %s %s' % (IO.vlit(cs['xopt']), IO.vlit(cs['g']), IO.mlit(cs['H']), IO.vlit(cs['sl']), IO.vlit(cs['su']), IO.flit(cs['delta'])), r,
+                    int(cs['g'].size), bool(np.any(cs['xopt'] <= cs['sl']) or np.any(cs['xopt'] >= cs['su']))))
+    return out
+
+
+def trs_eval(args):
+    """one file of cases evaluated by Coq"""
+    build, name, cases = args
+
+    class K:
+        pass
+    k = K()
+    k.build = build
+    body = TRS_V + 'Definition exp_ : list Z := [' + '; '.join(C.zlit(c[1]) for c in cases) + '].\n'
+    body += 'Definition got_ : list Z := [' + ';\n'.join(c[0] for c in cases) + '].\n'
+    body += 'Eval vm_compute in map (fun p => if Z.eqb (fst p) (snd p) then 1 else 0) (combine got_ exp_).\n'
+    ok, out = C.coq_eval(k, name, body, '', timeout=1500)
+    if not ok:
+        return None, C.first_error(out)
+    ls = C.parse_eval_lists(out)
+    return (ls[0] if ls else []), ''
+
+
+def trsbox_correspondence(ctx):
+    res = C.parallel(trs_task, [(ctx.seed * 73 + i + 11, ctx.scale(40, 400)) for i in range(16)], timeout_each=900)
+    cases = []
+    for t, st, r in res:
+        if st != 'ok':
+            ctx.oblige('correspondence:trsbox', False, 'implementation side failed: %s %s' % (st, r))
+            return
+        cases += r
+    nfile = 16
+    chunks = [cases[i::nfile] for i in range(nfile)]
+    res = C.parallel(trs_eval, [(ctx.build, 'cases_trs_%d' % i, ch) for i, ch in enumerate(chunks) if ch], timeout_each=1800)
+    nbad, ncmp, first = 0, 0, None
+    for (b, name, ch), st, r in res:
+        if st != 'ok' or r[0] is None:
+            ctx.oblige('correspondence:trsbox', False, 'Coq side failed on %s: %s' % (name, r if st != 'ok' else r[1]))
+            return
+        flags = r[0]
+        if len(flags) != len(ch):
+            ctx.oblige('correspondence:trsbox', False, 'evaluated %d of %d cases in %s' % (len(flags), len(ch), name))
+            return
+        ncmp += len(flags)
+        for c, f in zip(ch, flags):
+            if f != 1:
+                nbad += 1
+                first = first or c
+    ctx.cov['trsbox_calls_compared'] = ncmp
+    ctx.cov['trsbox_calls_raising'] = sum(1 for c in cases if c[1] == -1)
+    ctx.cov['trsbox_calls_starting_on_a_bound'] = sum(1 for c in cases if c[3])
+    if nbad:
+        ctx.oblige('correspondence:trsbox', False, 'regenerated trsbox and the implementation differ on %d of %d cases, first (n = %d): %s' % (nbad, ncmp, first[2], first[0][:300]))
+    else:
+        ctx.oblige('correspondence:trsbox+alt_trust_step+d_within_bounds(%d cases; d, gnew, crvmin bit-exact on binary64)' % ncmp, True)
+
+
 def correspondence(ctx):
+    trsbox_correspondence(ctx)
     from .. import modelio as IO
     res = C.parallel(dwb_task, [(ctx.seed * 61 + i + 13, ctx.scale(100, 1200)) for i in range(16)], timeout_each=600)
     cases = []
